@@ -75,5 +75,67 @@ pub open spec fn head_lit() -> Seq<u8> { seq![104u8, 101, 97, 100, 58] }
     proof { axiom_ttl_literals(); }
 //@@ end
 
+
+// ================= ReadOptions::to_query_string (C12) =================
+//@@ item file=src/store/mod.rs enum=FollowOption
+//@@ end
+//@@ item file=src/store/mod.rs struct=ReadOptions
+//@@ end
+impl PartialEq for FollowOption {
+    #[verifier::external_body]
+    fn eq(&self, other: &FollowOption) -> (r: bool) ensures r == (*self == *other) { unimplemented!() }
+}
+impl vstd::std_specs::cmp::PartialEqSpecImpl for FollowOption {
+    open spec fn obeys_eq_spec() -> bool { true }
+    open spec fn eq_spec(&self, other: &FollowOption) -> bool { *self == *other }
+}
+pub uninterp spec fn dec_str(x: nat) -> Seq<char>;     // decimal rendering (std Display of integers, ASSUMED inverse of FromStr)
+pub uninterp spec fn id_str(x: u128) -> Seq<char>;     // Display of a Scru128Id (ASSUMED inverse of its FromStr)
+pub broadcast proof fn axiom_display_u128(x: &u128, res: String)
+    ensures #[trigger] vstd::string::to_string_from_display_ensures::<u128>(x, res) ==> res@ == dec_str(*x as nat) { admit(); }
+pub broadcast proof fn axiom_display_usize(x: &usize, res: String)
+    ensures #[trigger] vstd::string::to_string_from_display_ensures::<usize>(x, res) ==> res@ == dec_str(*x as nat) { admit(); }
+pub broadcast proof fn axiom_display_id(x: &Scru128Id, res: String)
+    ensures #[trigger] vstd::string::to_string_from_display_ensures::<Scru128Id>(x, res) ==> res@ == id_str(id_u128(*x)) { admit(); }
+pub broadcast proof fn axiom_display_str(x: &str, res: String)
+    ensures #[trigger] vstd::string::to_string_from_display_ensures::<str>(x, res) ==> res@ == x@ { admit(); }
+pub type Pair = (Seq<char>, Seq<char>);
+pub open spec fn pairs_view(v: Seq<(&str, String)>) -> Seq<Pair> { v.map(|i: int, p: (&str, String)| (p.0@, p.1@)) }
+pub uninterp spec fn encode_pairs(p: Seq<Pair>) -> Seq<char>;   // application/x-www-form-urlencoded (url crate, ASSUMED inverse of serde_urlencoded)
+pub mod url { pub mod form_urlencoded {
+    #[allow(unused_imports)] use super::super::*;
+    pub struct Serializer { pub ghost acc: Seq<Pair> }
+    impl Serializer {
+        #[verifier::external_body] pub fn new(s: String) -> (r: Serializer) ensures r.acc == Seq::<Pair>::empty() { unimplemented!() }
+        #[verifier::external_body] pub fn extend_pairs(self, v: Vec<(&str, String)>) -> (r: Serializer) ensures r.acc == self.acc + pairs_view(v@) { unimplemented!() }
+        #[verifier::external_body] pub fn finish(self) -> (r: String) ensures r@ == encode_pairs(self.acc) { unimplemented!() }
+    }
+} }
+// what the client must put on the wire so that the server's parser (field names of ReadOptions) rebuilds the same options
+pub open spec fn expected_pairs(o: &ReadOptions) -> Seq<Pair> {
+    let a: Seq<Pair> = match o.follow {
+        FollowOption::Off => Seq::empty(),
+        FollowOption::On => seq![("follow"@, "true"@)],
+        FollowOption::WithHeartbeat(d) => seq![("follow"@, dec_str(dur_ms(d)))],
+    };
+    let b = match o.context_id { Some(c) => a.push(("context-id"@, id_str(id_u128(c)))), None => a };
+    let c = if o.tail { b.push(("tail"@, "true"@)) } else { b };
+    let d = match o.last_id { Some(l) => c.push(("last-id"@, id_str(id_u128(l)))), None => c };
+    match o.limit { Some(n) => d.push(("limit"@, dec_str(n as nat))), None => d }
+}
+impl ReadOptions {
+//@@ item file=src/store/mod.rs fn=to_query_string impl=ReadOptions ret=r
+//@@ spec
+    ensures
+        // every option that differs from its default is sent, under the name the server's parser reads, with its value:
+        // follow (true | heartbeat in ms), context-id, tail, last-id, limit -- tail also without follow (C12)
+        r@ == (if expected_pairs(self).len() == 0 { Seq::<char>::empty() } else { encode_pairs(expected_pairs(self)) }), //# codec.to_query_string.all_options_sent
+//@@ prologue
+    broadcast use axiom_display_u128, axiom_display_usize, axiom_display_id, axiom_display_str;
+//@@ before_stmt?: if params.is_empty()
+    proof { assert(pairs_view(params@) =~= expected_pairs(self)); } //# codec.to_query_string.all_options_sent
+//@@ end
+}
+
 } // verus!
 fn main() {}
